@@ -631,6 +631,9 @@ func RunC09(c *Ctx) error {
 		if cs.ref.Exit != 0 || len(cs.ref.Ops) == 0 {
 			continue
 		}
+		if cs.gc.IR != nil && cs.gc.IR.Big {
+			continue // seconds per run and nothing new about fault handling
+		}
 		// quick: a subset of configurations gets the full enumeration
 		if c.Tier == "quick" && !(ci%29 == 0 || (cs.gc.ID == "calc" || cs.gc.ID == "lexonly") && len(cs.flags) <= 1) {
 			continue
